@@ -482,7 +482,7 @@ func Grid(s Spec, thorough bool) [][3]int64 {
 	}
 	ns := []int64{0, 1, 2, 5}
 	if thorough {
-		ns = []int64{0, 1, 2, 3, 4, 5, 6, 7}
+		ns = []int64{0, 1, 2, 3, 5, 7}
 	}
 	for _, n := range ns {
 		switch {
@@ -714,9 +714,9 @@ func TestMain(m *testing.M) {
 		ID:    "C06",
 		Level: "exploration",
 		Rule: "enumeration of access specifications {list of Zahl/Kommazahl/Byte/Wahrheitswert/Buchstabe/Text/Kombination, Text with 1-4 byte characters} x {read, assignment target, compound-assignment target, Referenz argument, character replacement by a 1/2/3/4-byte character, slice 'im Bereich von', 'ab dem', 'bis zum'} x placement {global, local of a function, Kombination field, Referenz parameter, value parameter, inside a Variable, second loop iteration} x {-O 0,1,2}, Variable conversions for every (held, asked) pair of 13 types (incl. alias, type definitions of Zahl and of a list) in three positions, and '...' in three positions; " +
-			"each program reads length and index/bounds from its command line and is run on the grid lengths {0,1,2,5} (thorough 0..7) x indices {-2..n+2, +-2^31, 2^32+1, 2^32+n, 2^63-1, 2^63-2, -2^63, -2^63+1} (slices: both bounds over {-1..n+2, 2^32+1, 2^63-1, -2^63}); " +
+			"each program reads length and index/bounds from its command line and is run on the grid lengths {0,1,2,5} (thorough {0,1,2,3,5,7}) x indices {-2..n+2, +-2^31, 2^32+1, 2^32+n, 2^63-1, 2^63-2, -2^63, -2^63+1} (slices: both bounds over {-1..n+2, 2^32+1, 2^63-1, -2^63}); " +
 			"oracle: a model of the statement - inside 1..length: exact output, exit 0, silent stderr; outside (or crossed slice bounds after clamping, or a Variable holding another type, or '...' reached): exit status 1, 'Laufzeitfehler' message on stderr that contains nothing of the program's own constants, stdout exactly what was printed before, no sanitizer report; " +
-			"non-trivial = a (specification, index class) pair with the class in {below, first, inside, last, one-past, beyond, far} x {in-domain, out-of-domain}; quick: a seed-chosen subset of the specifications, thorough: all of them",
+			"non-trivial = a (specification, index class) pair with the class in {below, first, inside, last, one-past, beyond, far} x {in-domain, out-of-domain}; quick: one seed-chosen specification per (family, form, element / asked type) class, thorough: all of them at -O 0 and -O 2 and those with the global placement at -O 1",
 		Assumptions: []string{
 			"slice clamping rule (both bounds clamped to 1..length, then crossed bounds are an error, an empty container slices to empty) is the documented behaviour the statement refers to",
 			"every grid point runs against the plain runtime; the points with an index in {0, 1, length, length+1, 2^63-1} (both bounds for slices), all Variable conversions and all '...' programs additionally decide which run uses the AddressSanitizer build of runtime and stdlib; accesses performed by generated code itself are only judged by their result",
@@ -769,6 +769,9 @@ func TestGrid(t *testing.T) {
 			continue
 		}
 		s := specs[idx]
+		if vf.Thorough() && s.Level == 1 && s.Place != "global" && s.Family != "todo" {
+			continue // -O 1 only in the plain placement: -O 0 and -O 2 are the two code generator paths
+		}
 		c := Case{Spec: s, Points: Grid(s, vf.Thorough())}
 		f, outcome, classes := judge(c)
 		if outcome != "ok" && outcome != "violation" {
